@@ -9,14 +9,15 @@ from .. import canon, gen
 from ..core import call_real, frac
 
 ID = "C13"
-LEAN_MODULE = "CKT.Props.C13Sem"
+LEAN_MODULE = "CKT.Props.C13Std"
 THEOREMS = ["CKT.C13." + t for t in ["split_total", "mapM_total", "step_total", "run_total", "key0_bit", "key1_bit", "key0_other", "key1_other",
                                       "reset_keys", "conditioned_refused", "classical_arg_refused",
                                       # the returned dictionary (Props/C13Collect)
                                       "dedupKeys_spec", "sortKeys_spec", "collect_keys", "sum_by_key", "collect_sum", "simulate_total"]] + \
            ["CKT.C13Sem." + t for t in [  # T13.1: the branch table refines the Pauli-expectation semantics step by step; T13.2: reported values = semantic probabilities
                "cl_key0", "cl_key1", "measure_branch", "reset_branch", "gate_branch", "split_measure", "split_reset", "mapM_gate",
-               "step_refines", "run_refines", "collect_value", "sampler_correct", "simulate_correct"]]
+               "step_refines", "run_refines", "collect_value", "sampler_correct", "simulate_correct",
+               "reset_eq_std"]]   # the `reset = Π₀ + X·Π₁` law of ExSem is a fact about the standard matrices
 RULE = ("random Clifford circuits (plus exact rational rotations, incl. near-deterministic small angles) with measurements and resets in any order on 1-5 qubits and 0-5 classical bits, up to 20 instructions, bits unused, "
         "written once or overwritten (incl. re-measuring a bit that already holds 1), barriers, conditioned operations and gates carrying classical "
         "bits (refused); non-Clifford rotations (incl. near-deterministic small angles) only in the failing-input search against the independent "
